@@ -33,6 +33,20 @@ func coqVerdicts(vs []string) string {
 	return CoqList(xs)
 }
 
+// a send filter answers through a receive handler; in a chain without receive filter the scripted send filter has none, does
+// nothing and returns Stop
+func (sp *Spec) sendVerdict(v string) string {
+	if v == "hijack" || v == "direct" {
+		for _, f := range sp.Filters {
+			if !f.Send {
+				return v
+			}
+		}
+		return "stop"
+	}
+	return v
+}
+
 // index of spec filter i among the receive (or send) filters
 func (sp *Spec) filterIndex(i int) int {
 	n := 0
@@ -62,7 +76,11 @@ func coqCfg(sp *Spec) string {
 	}
 	for _, f := range sp.Filters {
 		if f.Send {
-			send = append(send, fmt.Sprintf("{| sf_verdicts := %s |}", coqVerdicts(f.Verdicts)))
+			vs := make([]string, len(f.Verdicts))
+			for i, v := range f.Verdicts {
+				vs[i] = sp.sendVerdict(v)
+			}
+			send = append(send, fmt.Sprintf("{| sf_code := %s; sf_verdicts := %s |}", CoqZ(int64(f.Code)), coqVerdicts(vs)))
 			if f.DelayMs > 0 {
 				delay = append(delay, "PUpFilter")
 			}
@@ -246,7 +264,11 @@ func coqObs(r *Result) string {
 			k := map[string]string{"up": "KUp", "hijack": "KHijack", "direct": "KDirect"}[x.Aux]
 			down = append(down, fmt.Sprintf("ODownHdr %s %s %s", CoqBool(x.End), k, CoqZ(int64(x.Code))))
 		case "down.data":
-			down = append(down, "ODownData "+CoqBool(x.End))
+			w, known := map[string]string{"up": "KUp", "hijack": "KHijack", "direct": "KDirect"}[x.Aux]
+			if !known {
+				w = "KUp"
+			}
+			down = append(down, "ODownData "+CoqBool(x.End)+" "+w)
 		case "down.trl":
 			down = append(down, "ODownTrl")
 		case "down.reset":
@@ -279,7 +301,7 @@ func coqObs(r *Result) string {
 		if x.Kind == "filter.recv" {
 			fl = append(fl, fmt.Sprintf("OFilterRecv %s %s %s", CoqNat(sp.filterIndex(x.K)), CoqNat(x.Code), coqVerdict[x.Aux]))
 		} else {
-			fl = append(fl, "OFilterSend "+CoqNat(sp.filterIndex(x.K))+" "+coqVerdict[x.Aux])
+			fl = append(fl, "OFilterSend "+CoqNat(sp.filterIndex(x.K))+" "+coqVerdict[sp.sendVerdict(x.Aux)])
 		}
 	}
 	return fmt.Sprintf("{| o_down := %s; o_up := %s; o_filters := %s; o_done := %s; o_gauge := %s; o_res := %s; o_destroyed := %s |}",
